@@ -10,6 +10,7 @@
    all request lists (any order, repetitions allowed), any default target.
    Fuel: recursion depth; any fuel > number of targets works ([run] uses length g + 1). *)
 From PV Require Import Lib.Py Spec.BuildSpec Model.Tasks Proofs.C34_tasks.
+From PV Require Import Model.TasksExec Proofs.C34_exec.
 Open Scope Z_scope.
 
 (* (2a) no target is executed twice *)
@@ -64,6 +65,47 @@ Theorem c34_topological_refuted : exists g req pi h,
   Orig.run g None req pi = Ok h /\ ~ bad g req /\ ~ topological g h.
 Proof. exists tree, [0], [2; 3; 1; 0], [2; 3; 1; 0]. exact orig_not_topological. Qed.
 Print Assumptions c34_topological_refuted.
+
+(* ---- a task that raises stops the run (Model/TasksExec.v: the "Run tasks" loop of
+   TaskRunner.run; a task = does its run() raise; event (n, i) = task i of target n entered).
+   Unbounded: all graphs, task maps, requests, defaults, fuels. ---- *)
+(* the target that failed is a requested target or a transitive dependency of one and really has a
+   raising task; no target that (transitively) depends on it has started any task *)
+Theorem c34_failure_blocks_dependants : forall fuel g tk dflt req ev f,
+  run_exec_fuel fuel g tk dflt req = Ok (ev, Some f) ->
+  In true (tasks_of tk f) /\ reach g (effective dflt req) f /\
+  forall a i, path g a f -> ~ In (a, i) ev.
+Proof. exact failure_blocks. Qed.
+Print Assumptions c34_failure_blocks_dependants.
+
+(* whether or not the run failed: every transitive dependency of a target that has started a task
+   has no raising task and has run all of its tasks *)
+Theorem c34_started_deps_completed : forall fuel g tk dflt req ev fo,
+  run_exec_fuel fuel g tk dflt req = Ok (ev, fo) ->
+  forall a i b, In (a, i) ev -> path g a b ->
+    ~ In true (tasks_of tk b) /\
+    forall j, 0 <= j < Z.of_nat (length (tasks_of tk b)) -> In (b, j) ev.
+Proof. exact started_deps_done. Qed.
+Print Assumptions c34_started_deps_completed.
+
+(* no failure reported: every task of every requested target and transitive dependency has run,
+   none of them raises, and no task of any other target has run *)
+Theorem c34_no_failure_all_tasks_run : forall fuel g tk dflt req ev,
+  run_exec_fuel fuel g tk dflt req = Ok (ev, None) ->
+  (forall n, reach g (effective dflt req) n ->
+     ~ In true (tasks_of tk n) /\
+     forall j, 0 <= j < Z.of_nat (length (tasks_of tk n)) -> In (n, j) ev) /\
+  (forall n j, In (n, j) ev -> reach g (effective dflt req) n).
+Proof. exact no_failure_all_run. Qed.
+Print Assumptions c34_no_failure_all_tasks_run.
+
+Example c34_exec_nonvacuous :
+  run_exec diamond [(3, [false; false]); (1, [false; true; false]); (0, [false])] None [0]
+    = Ok ([(3, 0); (3, 1); (1, 0); (1, 1)], Some 1) /\
+  run_exec diamond [(3, [false; false]); (0, [false])] None [0]
+    = Ok ([(3, 0); (3, 1); (0, 0)], None) /\
+  run_exec diamond [(2, [true])] (Some 2) [] = Ok ([(2, 0)], Some 2).
+Proof. vm_compute. repeat split. Qed.
 
 (* non-vacuity: the fuel hypothesis is met by [run]; Ok, loop and not-found outcomes all occur *)
 Example c34_nonvacuous :
